@@ -58,6 +58,8 @@ struct CtlState {
 pub struct Ctl {
     m: Mutex<CtlState>,
     cv: Condvar,
+    /// number of completed remaps of the event map (growth detection for held references)
+    resizes: std::sync::atomic::AtomicU64,
 }
 
 impl Ctl {
@@ -75,6 +77,7 @@ impl Ctl {
                 hung: false,
             }),
             cv: Condvar::new(),
+            resizes: std::sync::atomic::AtomicU64::new(0),
         }
     }
 
@@ -119,10 +122,17 @@ struct ConcHooks {
 impl pocket_db::verif::Hooks for ConcHooks {
     fn point(&self, name: &'static str) {
         if let Some(t) = TID.with(|c| c.get()) {
+            if name == "es:after_resize" {
+                let _ = self.ctl.resizes.fetch_add(1, std::sync::atomic::Ordering::SeqCst);
+            }
             self.ctl.yield_at(t, St::Parked(name));
         }
     }
-    fn fail(&self, _name: &'static str) -> bool {
+    fn fail(&self, name: &'static str) -> bool {
+        // never fails here, but it is a place where another thread may run
+        if let Some(t) = TID.with(|c| c.get()) {
+            self.ctl.yield_at(t, St::Parked(name));
+        }
         false
     }
     fn writer_enter(&self) {
@@ -348,7 +358,8 @@ impl<'a> Search<'a> {
 
 // ------------------------------------------------------------------ generation
 
-pub fn generate(rs: u64) -> Trace {
+/// `focus`: which property's check asks (biases the scenario choice)
+pub fn generate(rs: u64, focus: &str) -> Trace {
     let p = profile("C14");
     let mut g = Gen::new(rs, p);
     // base history
@@ -366,7 +377,13 @@ pub fn generate(rs: u64) -> Trace {
     }
     let nthreads = 2 + g.rng.weighted(&[55, 30, 15]);
     let mut threads: Vec<Vec<Op>> = vec![vec![]; nthreads];
-    let scenario = g.rng.weighted(&[20, 20, 15, 20, 10, 15]);
+    let scenario = match focus {
+        "C04" | "C15" => g.rng.weighted(&[5, 5, 0, 10, 0, 10, 70, 0]),
+        "C09" => g.rng.weighted(&[5, 75, 0, 5, 0, 15, 0, 0]),
+        "C10" => g.rng.weighted(&[0, 0, 10, 0, 0, 20, 0, 70]),
+        "C11" => g.rng.weighted(&[0, 5, 60, 0, 0, 20, 0, 15]),
+        _ => g.rng.weighted(&[16, 16, 12, 16, 8, 14, 9, 9]),
+    };
     let known: Vec<EvSpec> = g.model.events.values().cloned().collect();
     let retr: Vec<B32> = g.model.retrievable.iter().copied().collect();
     match scenario {
@@ -476,6 +493,57 @@ pub fn generate(rs: u64) -> Trace {
                 threads[1].push(Op::Has(e.id));
             }
         }
+        6 => {
+            // growth races: every thread appends events that straddle chunk boundaries,
+            // ephemeral ones (not indexed) among them
+            for t in 0..nthreads {
+                let n = 1 + g.rng.usize(2);
+                for _ in 0..n {
+                    let mut e = g.new_event();
+                    if g.rng.chance(1, 3) {
+                        e.kind = *g.rng.pick(&[20000u16, 25000, 29999]);
+                    }
+                    let len = *g.rng.pick(&[700usize, 1500, 2100, 3900, 6200]) + g.rng.usize(64);
+                    let seed = g.rng.next();
+                    e.content = (0..len).map(|i| (seed.wrapping_mul(i as u64 + 3) >> 11) as u8).collect();
+                    threads[t].push(Op::Store(e));
+                }
+            }
+            // somebody holds a reference to an early event while the others append, and reads
+            // an early event back at the end
+            if let Some(id) = retr.first().copied() {
+                let t = g.rng.usize(nthreads);
+                threads[t].insert(0, Op::TakeRef(id));
+                threads[t].push(Op::Get(id));
+            }
+        }
+        7 => {
+            // a FOREIGN deletion request racing the store of the event / address it names
+            let target = if g.rng.chance(1, 2) { g.new_event() } else { g.new_version() };
+            let others: Vec<B32> = g.authors.iter().copied().filter(|a| *a != target.pk).collect();
+            let attacker = others.first().copied().unwrap_or([0x77; 32]);
+            let mut tags: Vec<Vec<String>> = vec![];
+            let nfill = g.rng.usize(4);
+            for _ in 0..nfill {
+                tags.push(vec!["e".into(), hex(&g.rng.bytes32())]);
+            }
+            if let (Some(a), true) = (target.addr(), g.rng.chance(1, 3)) {
+                tags.push(vec!["a".into(), format!("{}:{}:{}", a.kind, hex(&a.pk), String::from_utf8(a.d).unwrap_or_default())]);
+            } else {
+                tags.push(vec!["e".into(), hex(&target.id)]);
+            }
+            g.rng.shuffle(&mut tags);
+            let del = EvSpec { id: g.rng.bytes32(), pk: attacker, kind: 5, at: target.at.saturating_add(1), tags, content: vec![] };
+            threads[0].push(Op::Store(target.clone()));
+            threads[1].push(Op::Store(del));
+            if nthreads > 2 {
+                threads[2].push(Op::Has(target.id));
+                threads[2].push(Op::Get(target.id));
+            }
+            if g.rng.chance(1, 2) {
+                threads[0].push(Op::Get(target.id));
+            }
+        }
         _ => {
             // a random mix
             for t in 0..nthreads {
@@ -560,11 +628,12 @@ pub struct ConcResult {
     pub schedule: Vec<u8>,
 }
 
-pub fn run_conc(trace: &Trace, scratch: PathBuf, _known: &BTreeSet<String>, verbose: bool) -> RunResult {
-    run_conc_full(trace, scratch, verbose).result
+pub fn run_conc(trace: &Trace, scratch: PathBuf, known: &BTreeSet<String>, verbose: bool) -> RunResult {
+    run_conc_full(trace, scratch, verbose, known).result
 }
 
-pub fn run_conc_full(trace: &Trace, scratch: PathBuf, verbose: bool) -> ConcResult {
+pub fn run_conc_full(trace: &Trace, scratch: PathBuf, verbose: bool, known_open: &BTreeSet<String>) -> ConcResult {
+    let mut known_out: Vec<crate::exec::Known> = vec![];
     let mut stats = Stats::default();
     let mut log: Vec<String> = vec![];
     let _ = std::fs::create_dir_all(&scratch);
@@ -650,6 +719,10 @@ pub fn run_conc_full(trace: &Trace, scratch: PathBuf, verbose: bool) -> ConcResu
         }
     };
     let records: Arc<Mutex<Vec<OpRecord>>> = Arc::new(Mutex::new(vec![]));
+    // C15: references taken by threads: (id, address, bytes value, event.map length when taken)
+    let held: Arc<Mutex<Vec<(B32, u64, usize, String, u64)>>> = Arc::new(Mutex::new(vec![]));
+    let base_offsets: BTreeMap<B32, u64> = model.offsets.iter().map(|(o, (id, _))| (*id, *o)).collect();
+    let map_path = dir.join("event.map");
     let mut schedule: Vec<u8> = vec![];
     let mut hung = false;
     let mut deadlock = false;
@@ -660,6 +733,9 @@ pub fn run_conc_full(trace: &Trace, scratch: PathBuf, verbose: bool) -> ConcResu
             let ops = &trace.threads[t];
             let enc = &enc;
             let records = records.clone();
+            let held = held.clone();
+            let map_path = map_path.clone();
+            let base_offsets = &base_offsets;
             let _ = scope.spawn(move || {
                 TID.with(|c| c.set(Some(t)));
                 for (i, op) in ops.iter().enumerate() {
@@ -669,6 +745,18 @@ pub fn run_conc_full(trace: &Trace, scratch: PathBuf, verbose: bool) -> ConcResu
                     }
                     ctl.yield_at(t, St::Parked("op_start"));
                     let invoke = ctl.step();
+                    if let Op::TakeRef(id) = op {
+                        // by offset (the id may legitimately move to a new offset if it is removed
+                        // and stored again meanwhile)
+                        if let Some(off) = base_offsets.get(id) {
+                            if let Ok(e) = store.get_event_by_offset(*off) {
+                                let _ = &map_path;
+                                let flen = ctl.resizes.load(std::sync::atomic::Ordering::SeqCst);
+                                held.lock().unwrap().push((*id, *off, e.as_bytes().as_ptr() as usize, bytes_val(e.as_bytes()), flen));
+                            }
+                        }
+                        continue;
+                    }
                     let out = exec_op(store, op, enc);
                     ctl.release_writer_if_held(t);
                     let ret = ctl.step();
@@ -781,6 +869,42 @@ pub fn run_conc_full(trace: &Trace, scratch: PathBuf, verbose: bool) -> ConcResu
         }
     });
     pocket_db::verif::install(None);
+    // C15: every reference a thread took still denotes the same bytes at the same address
+    let mut ref_finding: Option<Finding> = None;
+    {
+        let flen_now = ctl.resizes.load(std::sync::atomic::Ordering::SeqCst);
+        for (id, off, addr, val, flen) in held.lock().unwrap().iter() {
+            stats.inc("ref_checks");
+            if let Ok(e) = store.get_event_by_offset(*off) {
+                let addr_now = e.as_bytes().as_ptr() as usize;
+                if addr_now != *addr {
+                    if flen_now != *flen {
+                        stats.inc("fault/mapping_moved_on_growth");
+                        stats.inc("fault/growth");
+                        let sig = "growth-moved-mapping";
+                        if known_open.contains(sig) {
+                            if known_out.is_empty() {
+                                known_out.push(crate::exec::Known {
+                                    props: &["C15"],
+                                    sig,
+                                    detail: format!("a store by another thread enlarged event.map and moved the mapping: the reference a thread held to {} dangles", short(id)),
+                                });
+                            }
+                        } else if ref_finding.is_none() {
+                            ref_finding = Some(Finding { clause: "ref-moved-on-growth".into(), props: vec!["C15"], detail: format!("a store by another thread enlarged event.map and moved the mapping: the reference held to {} dangles", short(id)), op_index: 0 });
+                        }
+                    } else if ref_finding.is_none() {
+                        ref_finding = Some(Finding { clause: "ref-moved-without-growth".into(), props: vec!["C15"], detail: format!("address of the reference held to {} changed although the event map was not remapped", short(id)), op_index: 0 });
+                    }
+                } else {
+                    let now = bytes_val(e.as_bytes());
+                    if now != *val && ref_finding.is_none() {
+                        ref_finding = Some(Finding { clause: "ref-bytes-changed".into(), props: vec!["C15", "C04"], detail: format!("bytes under the reference held to {} changed: {} -> {}", short(id), val, now), op_index: 0 });
+                    }
+                }
+            }
+        }
+    }
     let recs: Vec<OpRecord> = records.lock().unwrap().clone();
     let g = ctl.m.lock().unwrap();
     stats.add("conc/steps", g.step);
@@ -814,7 +938,7 @@ pub fn run_conc_full(trace: &Trace, scratch: PathBuf, verbose: bool) -> ConcResu
     }
 
     // ---- oracle
-    let final_obs = obs::observe_real(&store, &model_universe(&model, &recs), &opts, 0);
+    let final_obs = obs::observe_real(&store, &model_universe(&model, &recs), &ObsOpts { battery: false, extra: false, offsets: true }, 0);
     let per_thread: Vec<Vec<usize>> = (0..n).map(|t| {
         let mut v: Vec<usize> = (0..sorted.len()).filter(|i| sorted[*i].thread == t).collect();
         v.sort_by_key(|i| sorted[*i].idx);
@@ -852,7 +976,7 @@ pub fn run_conc_full(trace: &Trace, scratch: PathBuf, verbose: bool) -> ConcResu
         keyed.sort();
         hint = keyed.into_iter().map(|(_, i)| i).collect();
     }
-    let mut search = Search { recs: &sorted, per_thread, enc: &enc, final_obs: &final_obs, opts: ObsOpts { battery: false, extra: false, offsets: false }, budget: 200_000, leaf_mismatch: None };
+    let mut search = Search { recs: &sorted, per_thread, enc: &enc, final_obs: &final_obs, opts: ObsOpts { battery: false, extra: false, offsets: true }, budget: 200_000, leaf_mismatch: None };
     let mut next = vec![0usize; n];
     let verdict = search.dfs(&mut next, &model, &hint, 0);
     let mut finding = None;
@@ -867,7 +991,15 @@ pub fn run_conc_full(trace: &Trace, scratch: PathBuf, verbose: bool) -> ConcResu
             if let Some(l) = &search.leaf_mismatch {
                 detail.push_str(&format!("; with the results explained, the final state differs: {l}"));
             }
-            finding = Some(Finding { clause: "not-linearizable".into(), props: vec!["C14"], detail, op_index: 0 });
+            // which other statements does the final state contradict (true under ANY order)?
+            let mut props: Vec<&'static str> = vec!["C14"];
+            for (p, why) in state_invariants(&store, &model, &sorted, &enc) {
+                if !props.contains(&p) {
+                    props.push(p);
+                    detail.push_str(&format!("; {p}: {why}"));
+                }
+            }
+            finding = Some(Finding { clause: "not-linearizable".into(), props, detail, op_index: 0 });
         }
     }
     // every reader error is a violation by itself (an index entry whose bytes are unreadable, a panic)
@@ -892,7 +1024,105 @@ pub fn run_conc_full(trace: &Trace, scratch: PathBuf, verbose: bool) -> ConcResu
         log.push(format!("FINDING {} {}", f.clause, f.detail));
     }
     let nops = trace.ops.len() + sorted.len();
-    finish(finding, stats, log, sig, nops, schedule)
+    if finding.is_none() {
+        finding = ref_finding;
+    }
+    let mut r = finish(finding, stats, log, sig, nops, schedule);
+    r.result.known = known_out;
+    r
+}
+
+/// Statements about the final state that hold under every serial order of the recorded
+/// operations; used to say which other properties a non-linearizable history contradicts.
+fn state_invariants(store: &Store, base: &Model, recs: &[OpRecord], enc: &BTreeMap<B32, OwnedEvent>) -> Vec<(&'static str, String)> {
+    let mut out: Vec<(&'static str, String)> = vec![];
+    let has = |id: &B32| store.has_event(pocket_types::Id::from_bytes(*id)).unwrap_or(false);
+    // events known to have been accepted: base retrievable + stores that returned Ok
+    let mut accepted: BTreeMap<B32, EvSpec> = BTreeMap::new();
+    for id in &base.retrievable {
+        let _ = accepted.insert(*id, base.events[id].clone());
+    }
+    let mut ok_offsets: Vec<(u64, B32)> = vec![];
+    for r in recs {
+        if let (Op::Store(e), Outcome::Store(StoreOutcome::Ok(off))) = (&r.op, &r.out) {
+            let _ = accepted.insert(e.id, e.clone());
+            ok_offsets.push((*off, e.id));
+        }
+    }
+    let removed_explicitly: BTreeSet<B32> = recs.iter().filter_map(|r| if let Op::Remove(id) = &r.op { Some(*id) } else { None }).collect();
+    // C04: every offset returned by a successful store still reads the stored bytes
+    for (off, id) in &ok_offsets {
+        let want = enc.get(id).map(|e| bytes_val(e.as_bytes()));
+        let got = match real::catch(|| store.get_event_by_offset(*off).map(|e| bytes_val(e.as_bytes()))) {
+            Ok(Ok(v)) => Some(v),
+            _ => None,
+        };
+        if want.is_some() && got != want {
+            out.push(("C04", format!("offset {off} returned for {} reads {:?}, stored {:?}", short(id), got, want)));
+            break;
+        }
+    }
+    // C09: two retrievable events at one replaceable address
+    let mut by_addr: BTreeMap<AddrKey, Vec<B32>> = BTreeMap::new();
+    for (id, e) in &accepted {
+        if let Some(a) = e.addr() {
+            if has(id) {
+                by_addr.entry(a).or_default().push(*id);
+            }
+        }
+    }
+    for (a, ids) in &by_addr {
+        if ids.len() > 1 {
+            out.push(("C09", format!("address {} holds {} retrievable events", a.label(), ids.len())));
+            break;
+        }
+    }
+    // accepted deletion requests
+    let dels: Vec<&EvSpec> = accepted.values().filter(|e| e.kind == 5).collect();
+    for d in &dels {
+        for t in &d.tags {
+            if t.len() < 2 {
+                continue;
+            }
+            if t[0] == "e" {
+                if let Some(x) = parse_e_target(&t[1]) {
+                    if let Some(v) = accepted.get(&x) {
+                        if v.pk != d.pk {
+                            // C10: the accepted, once-retrievable event of another author is gone and
+                            // nothing but this foreign request can have removed it; or it carries a
+                            // marker that only a foreign request can have put there
+                            let superseded = v.addr().map(|a| accepted.values().any(|o| o.id != v.id && o.addr().as_ref() == Some(&a) && o.at >= v.at)).unwrap_or(false);
+                            let own_request = dels.iter().any(|o| o.pk == v.pk && o.tags.iter().any(|t| t.len() >= 2 && t[0] == "e" && parse_e_target(&t[1]) == Some(x)));
+                            let own_addr_request = dels.iter().any(|o| o.pk == v.pk && o.tags.iter().any(|t| t.len() >= 2 && t[0] == "a"));
+                            let innocent = is_ephemeral(v.kind) || removed_explicitly.contains(&x) || superseded || own_request || own_addr_request;
+                            let marked = store.event_is_deleted(pocket_types::Id::from_bytes(x)).unwrap_or(false);
+                            if !innocent && !has(&x) {
+                                out.push(("C10", format!("{} (author {}) was accepted and is gone; the only thing naming it is the request {} of {}", short(&x), short(&v.pk), short(&d.id), short(&d.pk))));
+                            } else if !innocent && marked {
+                                out.push(("C10", format!("{} (author {}) is retrievable but marked deleted; only the foreign request {} names it", short(&x), short(&v.pk), short(&d.id))));
+                            }
+                        } else if has(&x) && x != d.id {
+                            // C11: covered by an accepted own deletion, yet retrievable
+                            out.push(("C11", format!("{} is named by the accepted deletion request {} of its author, yet retrievable", short(&x), short(&d.id))));
+                        }
+                    }
+                }
+            } else if t[0] == "a" {
+                if let Some(a) = parse_a_target(&t[1]) {
+                    if a.pk == d.pk {
+                        for (id, e) in &accepted {
+                            if e.addr().as_ref() == Some(&a) && e.at <= d.at && has(id) && *id != d.id {
+                                out.push(("C11", format!("{} at {} is covered by the accepted address deletion {} yet retrievable", short(id), a.label(), short(&d.id))));
+                            }
+                        }
+                    } else if accepted.values().any(|e| e.addr().as_ref() == Some(&a)) {
+                        out.push(("C10", format!("request {} names the address {} of another author and was accepted", short(&d.id), a.label())));
+                    }
+                }
+            }
+        }
+    }
+    out
 }
 
 /// the probing universe must include everything the threads touched
@@ -900,7 +1130,12 @@ fn model_universe(base: &Model, recs: &[OpRecord]) -> Model {
     let mut m = base.clone();
     for r in recs {
         match &r.op {
-            Op::Store(e) => m.note_event(e),
+            Op::Store(e) => {
+                m.note_event(e);
+                if let Outcome::Store(StoreOutcome::Ok(off)) = &r.out {
+                    let _ = m.offsets.insert(*off, (e.id, e.size()));
+                }
+            }
             Op::Remove(id) | Op::Get(id) | Op::Has(id) => {
                 if !m.events.contains_key(id) {
                     let _ = m.named_ids.insert(*id);
@@ -918,7 +1153,8 @@ fn fails_same(t: &Trace, target: &Target) -> Option<Vec<u8>> {
     let n = std::sync::atomic::AtomicU64::new(0);
     let _ = n;
     let scratch = crate::runner::scratch_root().join(format!("m{}", fnv1a(t.to_text().as_bytes())));
-    let r = run_conc_full(t, scratch, false);
+    let (known_open, _) = crate::runner::load_known(&format!("{}/KNOWN_FINDINGS.txt", crate::verif_root()));
+    let r = run_conc_full(t, scratch, false, &known_open);
     match r.result.finding {
         Some(f) if f.clause == target.clause && f.props.iter().any(|p| target.props.iter().any(|q| q == p)) => Some(r.schedule),
         _ => None,
